@@ -1100,3 +1100,28 @@ func (c *Ctx) ruleBackingCap() {
 		rep.ok("R-BACKCAP", "package", "cap() of a stack header", "?", "builtin cap() is never applied to a stack: only the configured capacity is ever consulted")
 	}
 }
+
+// ruleCtorForward: every Stack constructor hands its capacity argument to
+// newStack (the variadic parameter itself is the last argument of the call):
+// a kind whose constructor drops it would silently be unlimited.
+func (c *Ctx) ruleCtorForward() {
+	rep := c.rep
+	for _, name := range []string{"And", "Or", "Not", "List", "Basic"} {
+		fn := c.anchor("R-CAPEQ", name)
+		if fn == nil {
+			continue
+		}
+		pos := c.p.pos(fn.Pos())
+		calls := c.findCalls(fn, "newStack")
+		good := len(calls) == 1 && len(fn.Params) >= 1
+		if good {
+			args := calls[0].Call.Args
+			good = len(args) > 0 && args[len(args)-1] == ssa.Value(fn.Params[len(fn.Params)-1])
+		}
+		if good {
+			rep.ok("R-CAPEQ", name, "capacity forwarded", pos, "newStack receives the constructor's own capacity argument")
+		} else {
+			rep.bad("R-CAPEQ", name, "capacity forwarded", pos, "the constructor does not hand its capacity argument to newStack: stacks of this kind would be unlimited whatever was asked")
+		}
+	}
+}
